@@ -50,6 +50,10 @@ func UpdateList[T any](remoteWrite bool, existingData []T, newData []T, filterPa
 	// process update filter (with selectors and elements)
 	if filterPartial != nil {
 		if filterData, err := filterPartial.Data(); err == nil {
+			if len(newData) == 0 {
+				// a partial update without any data item cannot be applied
+				return existingData, false
+			}
 			newData, noErrors := copyToSelectedData(remoteWrite, existingData, filterData, &newData[0])
 			if !noErrors {
 				success = false
